@@ -1133,7 +1133,7 @@ impl Prop for C09 {
     }
     fn cases(&self, tier: Tier) -> u64 {
         match tier {
-            Tier::Quick => 1000,
+            Tier::Quick => 5000,
             Tier::Thorough => 30_000,
         }
     }
